@@ -3,7 +3,7 @@
   charge gain agree; rates are 0 at vacant stations; peak = max aggregate current; total energy
   = integral of aggregate power.
 
-  Property theorems only (helpers: `Lemmas/LedgerBattery`, `LedgerSim`, `LedgerInv`, `LedgerStep`, `LedgerTotal`, `LedgerInterval`).
+  Property theorems only (helpers: `Lemmas/LedgerBattery`, `LedgerSim`, `LedgerInv`, `LedgerStep`, `LedgerTotal`, `LedgerInterval`, `LedgerRerun`, `LedgerStatic`).
   Carrier: any linear ordered field `K`; `HasExp K` is an ARBITRARY function — the ledger of the
   two-stage battery is pure algebra on the dsoc value the code returns.
   Simulator-level theorems are about the full model `Acn.Sim` (the one the driver executes
@@ -15,6 +15,8 @@
 import AcnProofs.Lemmas.LedgerInterval
 import AcnProofs.Lemmas.LedgerExecEq
 import AcnProofs.Lemmas.LedgerBoundsRun
+import AcnProofs.Lemmas.LedgerRerun
+import AcnProofs.Lemmas.LedgerStatic
 
 set_option linter.unusedSectionVars false
 set_option linter.unusedVariables false
@@ -271,6 +273,95 @@ theorem exec_sums_eq_spec (cfg : Cfg K) (rates : Pilots.Mat K) (log : List (List
   ⟨LedgerX.sessionEnergyX_eq cfg rates log id t, LedgerX.intervalEnergyX_eq cfg rates k a d t,
    LedgerX.peakX_eq rates _ t, LedgerX.integralX_eq cfg rates t⟩
 
+/-! ### the same EV objects in a second simulation (`AcnModel/Rerun.lean`)
+
+  The simulator-level theorems above speak about `e.delivered - e0.delivered` for ARBITRARY initial EVs `e0` of the
+  configuration (any delivered energy, any last charging rate, any battery charge), so they hold verbatim for a
+  simulation whose EV objects have been through an earlier one.  The statements below are the form the property
+  words for that case: after `EV.reset()` the ABSOLUTE reported energy of the second simulation is the recorded sum
+  and the battery's charge above its initial charge — whatever state `s1` the EV objects were left in (in particular
+  whatever stale `current_charging_rate` they carry into the second simulation). -/
+
+/-- second simulation, any scheduler, any state `s1` left behind by whatever happened before: each EV's reported
+    energy = its battery's charge above the initial charge = Σ over the periods in which the occupancy snapshot
+    shows it connected of `rates[st][τ] · V_st / 1000 · (period / 60)` -/
+theorem rerun_session_energy (cfg : Cfg K) (hn : StationsNodup cfg) (s1 : State K)
+    (sched : View K → Except EventCore.Err (Schedule K)) (n : Nat) (s : State K)
+    (h : Sim.run (Rerun.rerunCfg cfg s1) sched n (Sim.init (Rerun.rerunCfg cfg s1)) = (s, none))
+    (id : String) (e : Ev K) (he : evIn s.evs id = some e) :
+    ∃ e1, evIn s1.evs id = some e1 ∧
+      e.delivered = e.batt.charge - e1.batt.init ∧
+      e.delivered =
+        ∑ τ ∈ range s.core.iter,
+          if occAt s.occLog τ (stationIndex cfg e1.station) = some id
+          then s.rates.get (stationIndex cfg e1.station) τ * volt cfg (stationIndex cfg e1.station) / 1000
+                * (cfg.period / 60)
+          else 0 := by
+  have hn2 : StationsNodup (Rerun.rerunCfg cfg s1) := hn
+  have hL := ledger_invariant _ hn2 sched n s h
+  obtain ⟨e0, h0⟩ := evIn_exists_of_ids hL.ids he
+  obtain ⟨e1, h1, rfl⟩ := evIn_rerunCfg h0
+  refine ⟨e1, h1, ?_, ?_⟩
+  · have := sim_energy_eq_battery_gain _ hn2 sched n s h id _ e h0 he
+    simpa [Rerun.resetEv] using this
+  · have := session_energy_eq_sum _ hn2 sched n s h id _ e h0 he
+    simp only [Rerun.resetEv, sub_zero] at this
+    exact this
+
+/-- ... and over the connection interval itself, when the state left behind still carries the sessions of the
+    configuration (id, station, arrival, departure of every EV untouched) -/
+theorem rerun_session_energy_interval_of_sessions (cfg : Cfg K) (hn : StationsNodup cfg)
+    (hv : EventCore.Valid cfg.core) (s1 : State K) (hs : s1.evs.map sessionOf = cfg.evs.map sessionOf)
+    (sched : View K → Except EventCore.Err (Schedule K)) (n : Nat) (s : State K)
+    (h : Sim.run (Rerun.rerunCfg cfg s1) sched n (Sim.init (Rerun.rerunCfg cfg s1)) = (s, none))
+    (id : String) (e : Ev K) (he : evIn s.evs id = some e) :
+    ∃ e1, evIn s1.evs id = some e1 ∧
+      e.delivered =
+        ∑ τ ∈ range s.core.iter,
+          if e1.arrival ≤ (τ : Int) ∧ (τ : Int) < e1.departure
+          then s.rates.get (stationIndex cfg e1.station) τ * volt cfg (stationIndex cfg e1.station) / 1000
+                * (cfg.period / 60)
+          else 0 := by
+  have hn2 : StationsNodup (Rerun.rerunCfg cfg s1) := hn
+  have hv2 : EventCore.Valid (Rerun.rerunCfg cfg s1).core := by rw [rerunCfg_core hs]; exact hv
+  have hL := ledger_invariant _ hn2 sched n s h
+  obtain ⟨e0, h0⟩ := evIn_exists_of_ids hL.ids he
+  obtain ⟨e1, h1, rfl⟩ := evIn_rerunCfg h0
+  refine ⟨e1, h1, ?_⟩
+  have := session_energy_interval _ hn2 hv2 sched n s h id _ e h0 he
+  simp only [Rerun.resetEv, sub_zero] at this
+  exact this
+
+/-- a simulation leaves id, station, arrival and departure of every EV object alone (`Ev.charge` is the only writer
+    of the EVs and touches delivered energy, last rate and battery only) -/
+theorem run_keeps_sessions (cfg : Cfg K) (hn : StationsNodup cfg) (hv : EventCore.Valid cfg.core)
+    (sched : View K → Except EventCore.Err (Schedule K)) (n : Nat) (s : State K)
+    (h : Sim.run cfg sched n (Sim.init cfg) = (s, none)) :
+    s.evs.map sessionOf = cfg.evs.map sessionOf :=
+  run_sessions hn hv sched n s h
+
+/-- THE STATEMENT AS THE PROPERTY WORDS IT, for EV objects that have been through an earlier simulation: a valid
+    scenario is simulated (any scheduler, stopped at any loop head `n1` without having raised), every EV is put back
+    with `EV.reset()`, and the same EV objects are simulated again (any other scheduler, the noise stream continued):
+    at every loop head of the second run, delivered_x = Σ over the periods `τ` so far with
+    `arrival_x ≤ τ < departure_x` of `rates[station_x][τ] · V / 1000 · (period / 60)` — an ABSOLUTE equality, and
+    whatever last charging rate the EV carried over from the first simulation -/
+theorem rerun_session_energy_interval (cfg : Cfg K) (hn : StationsNodup cfg) (hv : EventCore.Valid cfg.core)
+    (sched1 : View K → Except EventCore.Err (Schedule K)) (n1 : Nat) (s1 : State K)
+    (h1 : Sim.run cfg sched1 n1 (Sim.init cfg) = (s1, none))
+    (sched : View K → Except EventCore.Err (Schedule K)) (n : Nat) (s : State K)
+    (h : Sim.run (Rerun.rerunCfg cfg s1) sched n (Sim.init (Rerun.rerunCfg cfg s1)) = (s, none))
+    (id : String) (e : Ev K) (he : evIn s.evs id = some e) :
+    ∃ e1, evIn s1.evs id = some e1 ∧
+      e.delivered =
+        ∑ τ ∈ range s.core.iter,
+          if e1.arrival ≤ (τ : Int) ∧ (τ : Int) < e1.departure
+          then s.rates.get (stationIndex cfg e1.station) τ * volt cfg (stationIndex cfg e1.station) / 1000
+                * (cfg.period / 60)
+          else 0 :=
+  rerun_session_energy_interval_of_sessions cfg hn hv s1 (run_keeps_sessions cfg hn hv sched1 n1 s1 h1)
+    sched n s h id e he
+
 /-! ### non-vacuity (full model over ℚ; `exp` is never called by the ideal / stepwise laws) -/
 
 /-- ideal battery: 32 A at 1000 V for 60 min offers 32 kWh, the battery accepts its maximum 7 kW -/
@@ -321,6 +412,35 @@ example :
     (Sim.run exCfg exSched 8 (Sim.init exCfg)).1.peak = 14 ∧
     (Sim.run exCfg exSched 8 (Sim.init exCfg)).1.occLog =
       [[some "x", none], [some "x", some "z"], [some "y", some "z"], [none, none]] := by
+  decide +kernel
+
+/-- the scenario is `Valid` (hypothesis of the interval theorems) -/
+example : EventCore.Valid exCfg.core := by
+  constructor <;> simp [exCfg, Cfg.core, sessionOf]
+
+/-- the state the run above leaves behind -/
+def exS1 : Sim.State ℚ := (Sim.run exCfg exSched 8 (Sim.init exCfg)).1
+
+/-- a scheduler that stays silent in period 0 (all pilots 0 A there) and then does what `exSched` does -/
+def exSched2 : View ℚ → Except EventCore.Err (Schedule ℚ) := fun v => if v.iter = 0 then .ok [] else exSched v
+
+/-- hypotheses of `rerun_session_energy` / `rerun_session_energy_interval` (and the conclusion of `run_keeps_sessions`) on
+    a concrete instance: the EVs
+    come back with energies and batteries reset but with the stale last rates 7, 2 and 15/2 A; the second run ends
+    without an error; x is held at 0 A in period 0 and the recorded rate there is 0 (not the stale 7 A), so x's
+    energy is 7 = its row over [0, 2) = its battery's charge above the initial 5 -/
+example :
+    exS1.evs.map sessionOf = exCfg.evs.map sessionOf ∧
+    (Rerun.rerunCfg exCfg exS1).evs.map (·.rate) = [7, 2, 15/2] ∧
+    (Rerun.rerunCfg exCfg exS1).evs.map (·.delivered) = [0, 0, 0] ∧
+    (Rerun.rerunCfg exCfg exS1).evs.map (·.batt.charge) = [5, 8, 2] ∧
+    (Sim.run (Rerun.rerunCfg exCfg exS1) exSched2 8 (Sim.init (Rerun.rerunCfg exCfg exS1))).2 = none ∧
+    (Sim.run (Rerun.rerunCfg exCfg exS1) exSched2 8 (Sim.init (Rerun.rerunCfg exCfg exS1))).1.rates.rows
+      = [[0, 7, 2, 0], [0, 7, 15/2, 0]] ∧
+    (Sim.run (Rerun.rerunCfg exCfg exS1) exSched2 8 (Sim.init (Rerun.rerunCfg exCfg exS1))).1.evs.map (·.delivered)
+      = [7, 2, 29/4] ∧
+    (Sim.run (Rerun.rerunCfg exCfg exS1) exSched2 8 (Sim.init (Rerun.rerunCfg exCfg exS1))).1.evs.map (·.batt.charge)
+      = [12, 10, 37/4] := by
   decide +kernel
 
 end simex
